@@ -90,4 +90,15 @@ MUTANTS = [
     ("c16-wait-returns-first", "C16", "canopen/emcy.py", "                emcy = self.log[-1]", "                emcy = self.log[prev_log_size - 1] if prev_log_size else self.log[-1]"),
     ("c16-producer-pad", "C16", "canopen/emcy.py", 'EMCY_STRUCT = struct.Struct("<HB5s")', 'EMCY_STRUCT = struct.Struct("<HB5p")'),
     ("c16-wait-no-notify", "C16", "canopen/emcy.py", "            self.log.append(entry)\n            self.emcy_received.notify_all()", "            self.log.append(entry)\n            if self.active:\n                self.emcy_received.notify_all()"),
+    # ---- C17
+    ("c17-pdo-start-no-stop", "C17", P, "        # overwrite the reference and can lose our handle to shut it down\n        self.stop()\n\n        if period is not None:\n            self.period = period\n\n        if not self.period:\n            raise ValueError(\"A valid transmission period has not been given\")\n        logger.info(\"Starting", "        # overwrite the reference and can lose our handle to shut it down\n\n        if period is not None:\n            self.period = period\n\n        if not self.period:\n            raise ValueError(\"A valid transmission period has not been given\")\n        logger.info(\"Starting"),
+    ("c17-heartbeat-start-no-stop", "C17", "canopen/nmt.py", "        self._heartbeat_time_ms = heartbeat_time_ms\n\n        self.stop_heartbeat()", "        self._heartbeat_time_ms = heartbeat_time_ms\n"),
+    ("c17-oncommand-no-update", "C17", "canopen/nmt.py", "        super(NmtSlave, self).on_command(can_id, data, timestamp)\n        self.update_heartbeat()", "        super(NmtSlave, self).on_command(can_id, data, timestamp)"),
+    ("c17-heartbeat-zero-not-stopped", "C17", "canopen/nmt.py", "            if heartbeat_time == 0:\n                self.stop_heartbeat()", "            if heartbeat_time == 0:\n                pass"),
+    ("c17-guarding-restart", "C17", "canopen/nmt.py", "        if self._node_guarding_producer : self.stop_node_guarding()", "        pass"),
+    ("c17-update-no-restart", "C17", "canopen/network.py", "        elif new_data != old_data:", "        elif len(new_data) != len(old_data):"),
+    ("c17-disconnect-skips-pdo", "C17", "canopen/network.py", "            if hasattr(node, \"pdo\"):\n                node.pdo.stop()", "            if hasattr(node, \"pdo\") and not hasattr(node, \"data_store\"):\n                node.pdo.stop()"),
+    ("c17-heartbeat-period-unit", "C17", "canopen/nmt.py", "0x700 + self.id, [self._state], heartbeat_time_ms / 1000.0)", "0x700 + self.id, [self._state], heartbeat_time_ms / 100.0)"),
+    ("c17-pdo-stop-keeps-handle", "C17", P, "        if self._task is not None:\n            self._task.stop()\n            self._task = None\n\n    def update(self)", "        if self._task is not None:\n            self._task.stop()\n\n    def update(self)"),
+    ("c17-modify-data-stale", "C17", "canopen/network.py", "        if hasattr(self._task, \"modify_data\"):\n            self._task.modify_data(self.msg)", "        if hasattr(self._task, \"modify_data\"):\n            pass"),
 ]
